@@ -195,7 +195,7 @@ func genC07(t *rapid.T) c07Case {
 	inits := []uint64{0, 0, 0, 1, c.Seg, c.Seg + 1}
 	c.Prog = pgen.Gen(t, pgen.Opts{MinMods: 1, MaxMods: 4, InitialBlocks: inits, ForceStoreOutput: true})
 	if rapid.IntRange(0, 3).Draw(t, "chainprog") == 0 {
-		c.Prog = pgen.GenChain(t, rapid.IntRange(2, 3).Draw(t, "chaindepth"), inits)
+		c.Prog = pgen.GenChain(t, rapid.IntRange(2, 3).Draw(t, "chaindepth"), inits, 2*c.Seg, 3*c.Seg, 3*c.Seg+1)
 	}
 	c.Run = genRun(t, c.Prog, c.Seg, c.Head)
 	c.Run.Workers = rapid.IntRange(1, 3).Draw(t, "c07workers")
